@@ -61,12 +61,15 @@ Definition normalize_core_pa (e : env) (yt : hts) (o : n_opts) (original url : s
   let url := clean_url url in
   let has_proto := has_protocol url in
   let url := if has_proto then url else lit "http://" ++ url in
-  let* url := platform_rewrite e yt url in
-  normalize_parsed e o original has_proto url.
+  match platform_rewrite e yt url with
+  | Exc ValueError => Ok (NOriginal original)       (* the platform parsers reject what urlsplit rejects *)
+  | Exc x => Exc x
+  | Ok url => normalize_parsed e o original has_proto url
+  end.
 
 Definition normalize_split_pa (e : env) (yt : hts) (o : n_opts) (original : str) : res nres :=
   let* url := if infer_redirection_o o then infer_redirection e original else Ok original in
-  normalize_core_pa e yt o original url.
+  normalize_core_pa e yt o url url.
 
 Definition normalize_url_pa (e : env) (yt : hts) (o : n_opts) (url : str) : res str :=
   let* r := normalize_split_pa e yt o url in
